@@ -114,7 +114,10 @@ func runCase(c *core.Case) {
 	var idleStart time.Time
 	if idleRun {
 		for _, cc := range srv.S.ClientMgr.List() {
-			cc.IdleTime = 295
+			// only the two clients that stay silent: nothing else touches their idle counters until the timer does
+			if strings.HasPrefix(cc.RemoteAddr, "10.14.0.1:") || strings.HasPrefix(cc.RemoteAddr, "10.14.0.2:") {
+				cc.IdleTime = 295
+			}
 		}
 		ctx, cancel := context.WithCancel(context.Background())
 		defer cancel()
